@@ -6,7 +6,7 @@ CONSTANTS
   Segs = {"a", "b", "f", "x", "index", "ev"}
   MaxLen = 3
   Methods = {"GET", "POST"}
-  Queries = {"none", "p1", "z"}
+  Queries = {"none", "p1"}
   Bodies = {"none", "p1"}
   TSs = {FALSE}
   NCs = {""}
